@@ -123,21 +123,32 @@ def run(tier, seed, rep):
         d = {}
         for nm in rnd.sample(names, rnd.randint(1, 4)):
             d[nm] = rnd.choice([1, 2, 3, 5, 20, -1, -5, 0, 1.5, -2.25]) if rnd.random() < 0.8 else rnd.randint(-5, 20)
+        # sometimes the same monosaccharide appears under its name AND one of its synonyms
+        if rnd.random() < 0.35:
+            cands = [t for t in table if t["syns"] and t["name"] in d]
+            if cands:
+                t = rnd.choice(cands)
+                d[rnd.choice(t["syns"])] = rnd.choice([1, 2, 3, -1, 2.5])
         syn = {}
         for k, v in d.items():
+            if not any(t["name"] == k for t in table):      # already a synonym
+                syn[k] = syn.get(k, 0) + v
+                continue
             row = next(t for t in table if t["name"] == k)
-            syn[rnd.choice(row["syns"]) if row["syns"] and rnd.random() < 0.7 else k] = v
+            key = rnd.choice(row["syns"]) if row["syns"] and rnd.random() < 0.7 else k
+            syn[key] = syn.get(key, 0) + v
 
         def f():
             text = pp.write_glycan_formula(dict(d))
-            return (text, pp.parse_glycan_formula(text), pp.glycan_comp(dict(d)), pp.glycan_comp(dict(syn)),
-                    pp.glycan_mass(dict(d)), pp.glycan_mass(dict(syn)))
+            return (text, pp.glycan_comp(dict(d)), pp.glycan_comp(dict(syn)), pp.glycan_mass(dict(d)), pp.glycan_mass(dict(syn)))
         o, r_ = call(f)
         ev = {"tid": f"g{i}", "k": "glycan", "dict": pairs(d), "syn": pairs(syn), "table": table, "out": o}
         if o == "ret":
-            ev.update(text=r_[0], parsed=pairs(r_[1]), comp=pairs(r_[2]), compSyn=pairs(r_[3]), mass=fix(r_[4]), massSyn=fix(r_[5]))
+            op, parsed = call(lambda: pp.parse_glycan_formula(r_[0]))      # may legitimately fail on an ambiguous text
+            ev.update(text=r_[0], parseOut=op, parsed=pairs(parsed) if op == "ret" else [], comp=pairs(r_[1]),
+                      compSyn=pairs(r_[2]), mass=fix(r_[3]), massSyn=fix(r_[4]))
         else:
-            ev.update(text="", parsed=[], comp=[], compSyn=[], mass=[0, 0], massSyn=[0, 0])
+            ev.update(text="", parseOut="", parsed=[], comp=[], compSyn=[], mass=[0, 0], massSyn=[0, 0])
         evs.append(ev)
     res = core.validate_traces("Trace_Formula", evs, "C15", min_per_shard=150)
     rep.add_trace("formulas_and_glycans", evs, res,
